@@ -205,6 +205,35 @@ class Optimizer:
     def create_result(self) -> Result:
         """Create the result of the optimization.
 
+        If creating the result of a finished optimization fails (e.g. because the final
+        evaluation of the model raises) the result is created from the last parameters which
+        could be evaluated, unless exceptions are supposed to be raised.
+
+        Returns
+        -------
+        Result
+            The result of the optimization.
+
+        Raises
+        ------
+        InitialParameterError
+            Raised if the initial parameters could not be evaluated.
+        """
+        try:
+            return self._create_result()
+        except InitialParameterError:
+            raise
+        except Exception as e:
+            if self._raise or self._optimization_result is None:
+                raise
+            warn(f"Optimization failed:\n\n{e}")
+            self._termination_reason = str(e)
+            self._optimization_result = None
+            return self._create_result()
+
+    def _create_result(self) -> Result:
+        """Create the result of the optimization from the current state.
+
         Returns
         -------
         Result
